@@ -94,6 +94,7 @@ func runC02(c *Ctx) {
 	c.r029(pk)
 	c.r0210(pk)
 	c.r0211(pk)
+	c.r0212(pk)
 	c.R.Rule("R02.8", "R01.3 restricted to renamer.rename: every save `p := m.renamer.rename` is followed, on every path from the later assignment of the switch to a function exit, by the restore `m.renamer.rename = p` — a leaked `on` lets the rest of an enclosing function that contains `with` be renamed")
 	c.r013(pk, "R02.8", map[string]bool{"rename": true})
 }
@@ -1030,4 +1031,51 @@ func (c *Ctx) r0211(pk *packages.Package) {
 			"an iteration of the loop over the declared bindings can end without giving the binding a generated name: it keeps its source name, which the generator may have handed to another binding of the same scope: "+pathStr(c, g, p))
 	}
 	c.R.Floor(rule, "loops over scope.Declared in renameScope", n, 1)
+}
+
+// R02.12 (known finding K15): the name of a class expression is a binding the renamer knows about.
+func (c *Ctx) r0212(pk *packages.Package) {
+	const rule = "R02.12"
+	c.R.Rule(rule, "`class e{…}` in expression position binds e inside the class (heritage, computed keys, members). The renamer chooses names per scope and avoids the names that are declared in or referenced from it; a binding that is in no scope's lists is invisible to it, and a variable captured by the class can be given that very name: `function f(){var x=1;return class e{m(){return x}}}` → `…var e=1;return class e{m(){return e}}`, m returns the class. In the pinned parser (parse/js, Parser.parseAnyClass) every assignment to the Name of the class declaration takes the result of a Scope.Declare call; a free-standing &Var{…} is a binding nobody accounts for")
+	dep := c.P.Dep(pjs)
+	if dep == nil {
+		c.R.Unres(rule, "parse/js.Parser.parseAnyClass", "-", "dependency package not loaded")
+		return
+	}
+	fd := load.Func(dep, "Parser.parseAnyClass")
+	if fd == nil {
+		c.R.Unres(rule, "parse/js.Parser.parseAnyClass", "-", "function not found in the dependency")
+		return
+	}
+	info := dep.TypesInfo
+	n := 0
+	ast.Inspect(fd.Body, func(x ast.Node) bool {
+		as, ok := x.(*ast.AssignStmt)
+		if !ok || len(as.Rhs) != 1 || len(as.Lhs) < 1 || !strings.HasSuffix(nospace(str(as.Lhs[0])), ".Name") {
+			return true
+		}
+		n++
+		construct := fmt.Sprintf("parse/js.Parser.parseAnyClass/class name#%d is declared in a scope", n)
+		if ce, ok := ast.Unparen(as.Rhs[0]).(*ast.CallExpr); ok && strings.HasSuffix(calleeName(info, ce), ".(Scope).Declare") {
+			c.R.OK(rule, construct, c.pos(as), "result of Scope.Declare")
+			return true
+		}
+		// does the minifier compensate? (any use of js.ExprDecl in package js of the module)
+		comp := false
+		for _, f := range pk.Syntax {
+			ast.Inspect(f, func(z ast.Node) bool {
+				if se, ok := z.(*ast.SelectorExpr); ok && se.Sel.Name == "ExprDecl" {
+					comp = true
+				}
+				return true
+			})
+		}
+		if comp {
+			c.R.Unres(rule, construct, c.pos(as), "the parser leaves the name of a class expression out of every scope and package js refers to js.ExprDecl: whether that compensates is not decided here")
+			return true
+		}
+		c.R.Bad(rule, construct, c.pos(as), "the name of a class expression is "+str(as.Rhs[0])+", a variable in no scope: the renamer can hand the same name to a variable that the class body captures (`function f(){var x=1;return class e{m(){return x}}}` → `var e=1;return class e{m(){return e}}`)")
+		return true
+	})
+	c.R.Floor(rule, "assignments of the class name in the parser", n, 2)
 }
